@@ -445,11 +445,7 @@ func (p *Program) replay(verif, prop string, v *Violation, ob *Oblig) *ReplayRes
 	}
 	src := "//go:build go1.18\n\n// (the build line lifts the language version of this file above the module's go 1.14: generics)\n\npackage " + pkgName + "\n\nimport (\n\t" + strings.Join(imps, "\n\t") + "\n)\n\n" +
 		"var _ = MoveNone\n\n" +
-		"func govcIte[T any](c bool, a, b T) T {\n\tif c {\n\t\treturn a\n\t}\n\treturn b\n}\n" +
-		"func govcTestbit(b uint64, i int) bool { return i >= 0 && i < 64 && (b>>uint(i))&1 == 1 }\n" +
-		"func govcForall(lo, hi int, f func(int) bool) bool {\n\tfor i := lo; i < hi; i++ {\n\t\tif !f(i) {\n\t\t\treturn false\n\t\t}\n\t}\n\treturn true\n}\n" +
-		"func govcExists(lo, hi int, f func(int) bool) bool {\n\tfor i := lo; i < hi; i++ {\n\t\tif f(i) {\n\t\t\treturn true\n\t\t}\n\t}\n\treturn false\n}\n" +
-		"var _ = govcIte[int]\nvar _, _, _ = govcTestbit, govcForall, govcExists\n\n" + specs +
+		replayHelpers + specs +
 		"\nfunc TestGovcReplay(t *testing.T) {\n\tdefer func() {\n\t\tif r := recover(); r != nil {\n\t\t\tfmt.Printf(\"GOVC-REPLAY panic=%v\\n\", r)\n\t\t}\n\t}()\n" + body.String() + "}\n"
 	rel := strings.TrimPrefix(pkgPath, modulePath+"/")
 	res := &ReplayResult{Attempted: true, Driver: "go test -overlay (in-package test calling the real function with the model's parameter values)",
@@ -539,3 +535,5 @@ func replayFile(repo, path string) int {
 	}
 	return 0
 }
+
+const replayHelpers = "func govcIte[T any](c bool, a, b T) T {\n\tif c {\n\t\treturn a\n\t}\n\treturn b\n}\nfunc govcTestbit(b uint64, i int) bool { return i >= 0 && i < 64 && (b>>uint(i))&1 == 1 }\nfunc govcForall(lo, hi int, f func(int) bool) bool {\n\tfor i := lo; i < hi; i++ {\n\t\tif !f(i) {\n\t\t\treturn false\n\t\t}\n\t}\n\treturn true\n}\nfunc govcExists(lo, hi int, f func(int) bool) bool {\n\tfor i := lo; i < hi; i++ {\n\t\tif f(i) {\n\t\t\treturn true\n\t\t}\n\t}\n\treturn false\n}\nvar _ = govcIte[int]\nvar _, _, _ = govcTestbit, govcForall, govcExists\n\n"
